@@ -55,7 +55,13 @@ def drive_validate(rep, behaviours, constants, flags_of_interest, tag, seed, con
         for f in sorted(v.flags):
             counts[f] = counts.get(f, 0) + 1
             if f in flags_of_interest:
-                rep.violation({"check": "trace", "flag": f, "clause": A.FLAG_INV.get(f, f), "type": tr["conf"]["type"]},
+                sig = {"check": "trace", "flag": f, "clause": A.FLAG_INV.get(f, f), "type": tr["conf"]["type"]}
+                if f == "scheduler_raised":
+                    crash = next((e for e in tr["ev"] if e["a"] == "Crash"), None)
+                    if crash is not None:
+                        sig["where"], sig["exc"] = crash["where"], crash["exc"].split("(")[0]
+                    sig["brackets"], sig["per_bracket"] = tr["conf"]["nbr"], bool(tr["conf"]["perbr"])
+                rep.violation(sig,
                               {"campaign": tag, "conf": tr["conf"], "events": tr["ev"], "schedule": behaviours[k],
                                "seed": seed + k, "all_flags": sorted(v.flags)})
     if traces:
